@@ -276,6 +276,13 @@ pub fn kernel_counter_dec(value: usize, limit: usize) -> (bool, usize) {
     (r, c.counter.load(std::sync::atomic::Ordering::SeqCst))
 }
 
+/// `Counter::total()` on a counter whose raw value is `value` (underflows for 0)
+pub fn kernel_counter_total(value: usize) -> usize {
+    let c = Counter::new(1);
+    c.counter.store(value, std::sync::atomic::Ordering::SeqCst);
+    c.total()
+}
+
 /// initial raw value of a new counter
 pub fn kernel_counter_new(limit: usize) -> usize {
     Counter::new(limit).counter.load(std::sync::atomic::Ordering::SeqCst)
